@@ -122,6 +122,8 @@ type spec struct {
 	fn    string   // function name
 	fuel  []string // fuel (Lean expression over the parameters) of the i-th `for` loop
 	slice *sliceSpec
+	lean  string // name of the generated definition when it is not fn (methods of the same name on several receivers; dt.go)
+	dt    string // dt.go: "putArgs" = the function ends in `return recv.db.Put(k, v)`; the generated definition yields (k, v)
 }
 
 // slice mode: only one expression of a function with effects is translated
@@ -144,6 +146,16 @@ var whitelist = []spec{
 	{pkg: "datafile", recv: "DataFile", fn: "readToBuf", fuel: []string{"file.size + 1"}},
 	{pkg: "index", fn: "nextPowerOfTwo"},
 	{pkg: "fio", recv: "MMap", fn: "remap", slice: &sliceSpec{assignTo: "m.endOff", lean: "remap_endOff", guard: "remap_covered"}},
+	// round 3b (dt.go): the redis-layer codecs of datatype/meta.go
+	{pkg: "datatype", recv: "metadata", fn: "encode", lean: "metadata_encode"},
+	{pkg: "datatype", fn: "decodeMetadata"},
+	{pkg: "datatype", recv: "hashInternalKey", fn: "encode", lean: "hashInternalKey_encode"},
+	{pkg: "datatype", recv: "setInternalKey", fn: "encode", lean: "setInternalKey_encode"},
+	{pkg: "datatype", recv: "listInternalKey", fn: "encode", lean: "listInternalKey_encode"},
+	{pkg: "datatype", recv: "zsetInternalKey", fn: "encodeWithMember", lean: "zsetInternalKey_encodeWithMember"},
+	{pkg: "datatype", recv: "zsetInternalKey", fn: "encodeWithScore", lean: "zsetInternalKey_encodeWithScore"},
+	{pkg: "datatype", recv: "DataTypeService", fn: "Set", lean: "Set_put", dt: "putArgs"},
+	{pkg: "datatype", recv: "DataTypeService", fn: "Get"},
 }
 
 // abstract parameter of a generated definition (something the Go function takes from its
@@ -968,6 +980,11 @@ func (t *tr) natArg(e ast.Expr) string {
 		if _, isLit := ast.Unparen(e).(*ast.BasicLit); isLit {
 			return tv.Value.ExactString()
 		}
+		if _, isId := ast.Unparen(e).(*ast.Ident); !isId {
+			// a folded constant expression (dt.go: `make([]byte, binary.MaxVarintLen64+1)`); t.expr would print an
+			// untyped literal, on which `.toNat` does not elaborate
+			return "(" + tv.Value.ExactString() + " /- " + src(e) + " -/)"
+		}
 	}
 	x, k := t.expr(e)
 	switch k.k {
@@ -1222,8 +1239,8 @@ func (t *tr) expr(e ast.Expr) (lx, kind) {
 			if obj != nil && obj == t.recvObj {
 				ty := t.typeOfExpr(e)
 				k := t.kindOf(ty, e)
-				if !k.isInt() {
-					failAt(e, "receiver field %s has non-integer type", src(e))
+				if !k.isInt() && k.k != kBytes { // []byte fields: dt.go (read only, like []byte parameters)
+					failAt(e, "receiver field %s is neither an integer nor a []byte", src(e))
 				}
 				return lx{s: t.recvField(v.Sel.Name, k), atom: true}, k
 			}
@@ -1475,6 +1492,9 @@ func proj(x lx, i, n int) string {
 // call: a call of the primitive table or of an already translated function; returns the Lean
 // expression of the result (a tuple for several results) and the result kinds
 func (t *tr) call(v *ast.CallExpr) (lx, []kind, bool) {
+	if x, ks, ok := t.dtCall(v); ok { // dt.go: clock reads
+		return x, ks, true
+	}
 	for _, pr := range prims {
 		b := map[string]ast.Node{}
 		if !match(parseExpr(pr.pattern), v, b) {
@@ -1635,6 +1655,9 @@ func (t *tr) writeSites(x ast.Node) []*ast.Ident {
 			if match(parseExpr(pr.pattern), v, b) {
 				add(b[pr.write].(ast.Expr))
 			}
+		}
+		if dst := dtWriteDest(v); dst != nil { // dt.go: PutUint64/32/16
+			add(dst)
 		}
 	case *ast.BlockStmt:
 		for i := range v.List {
@@ -1939,6 +1962,12 @@ func (t *tr) simple(s ast.Stmt, o *out, ind string, rest []ast.Stmt) bool {
 		ce, ok := v.X.(*ast.CallExpr)
 		if !ok {
 			return false
+		}
+		if name, rhs, ok := t.dtWriteStmt(ce); ok { // dt.go: copy(b[lo:hi], e), PutUint64/32/16(b[lo:hi], v)
+			t.noPending(s)
+			addUpd(name, name+" := "+rhs)
+			flush()
+			return true
 		}
 		id, ok := ce.Fun.(*ast.Ident)
 		if !ok || id.Name != "copy" || len(ce.Args) != 2 {
@@ -2534,6 +2563,7 @@ func (t *tr) paramDecl(ps []param) string {
 }
 
 func (t *tr) allParams() []param {
+	t.dtSortRecvFields() // dt.go: declaration order of the struct, not first-use order
 	var ps []param
 	for _, a := range t.abstract {
 		ps = append(ps, param{name: a.name, k: kind{k: -1}, goName: a.ty, field: a.doc})
@@ -2885,9 +2915,15 @@ func translate(p *pkgInfo, sp spec) (text string, err error) {
 		return "", fmt.Errorf("function %s is declared more than once in package %s", key, p.dir)
 	}
 	t := &tr{p: p, sp: sp, leanName: p.name + "." + sp.fn}
+	if sp.lean != "" {
+		t.leanName = p.name + "." + sp.lean
+	}
 	t.setup(fd)
 	if sp.slice != nil {
 		return t.sliceFn(), nil
+	}
+	if sp.dt != "" {
+		return t.dtMode(), nil // dt.go
 	}
 	return t.function(), nil
 }
@@ -2946,6 +2982,7 @@ func main() {
 	sb.WriteString("   hand-written model are proved in XixiKV/Proofs/TransEq.lean and TransEq2.lean. -/\n")
 	sb.WriteString("namespace XixiKV.Generated.Trans\n\n")
 	sb.WriteString(prelude)
+	sb.WriteString(dtPrelude) // dt.go
 	for _, dir := range order {
 		p := pkgs[dir]
 		fmt.Fprintf(&sb, "\n/-! ## package %s (%s) -/\n", p.name, dir)
